@@ -165,11 +165,18 @@ fn f64_3d(d: &mut Draw) -> Outcome {
     } else {
         (Matrix3::from_axis_angle(axis, Rad(t)), Matrix4::from_axis_angle(axis, Rad(t)), Rotation3::from_axis_angle(axis, Rad(t)), Rotation3::from_axis_angle(axis, Rad(t)))
     };
+    let pt = Point3::from_vec(v);
     for (name, got) in [
         ("matrix3-rodrigues-f64", m3 * v),
         ("matrix4-rodrigues-f64", (m4 * v.extend(0.0)).truncate()),
         ("basis3-rodrigues-f64", b3.rotate_vector(v)),
         ("quaternion-rodrigues-f64", qt * v),
+        ("quaternion-rotate_vector-f64", qt.rotate_vector(v)),
+        ("quaternion-rotate_point-f64", qt.rotate_point(pt).to_vec()),
+        ("basis3-rotate_point-f64", b3.rotate_point(pt).to_vec()),
+        ("matrix4-transform_point-f64", cgmath::Transform::<Point3<f64>>::transform_point(&m4, pt).to_vec()),
+        ("matrix4-transform_vector-f64", cgmath::Transform::<Point3<f64>>::transform_vector(&m4, v)),
+        ("matrix3-transform_point-f64", cgmath::Transform::<Point3<f64>>::transform_point(&m3, pt).to_vec()),
     ] {
         let e = (got - want).magnitude();
         if !(e <= tol) {
